@@ -152,7 +152,7 @@ static void write_path(FILE *f) {
 }
 
 static void record_violation(const char *key, const char *msg) {
-  if (replaying) { fprintf(stderr, "VX-FAIL %s: %s\n", key, msg); replay_failed = 1; return; }
+  if (replaying) { fprintf(stderr, "VX-FAIL %s :: %s\n", key, msg); replay_failed = 1; return; }
   if (!owned) return;
   int k;
   for (k = 0; k < S->nkeys; k++) if (strncmp(S->keys[k].key, key, KEYLEN - 1) == 0) break;
